@@ -3,11 +3,11 @@ CFG = dict(
     claim="Theorems C10_returns (Q: after Stop or a failed write, once the handlers honour their context, Serve has returned), "
           "C10_write_failure_cancels, C10_returns_readfail (Q), C10_streams_done (at Serve's return every stream handler goroutine "
           "has finished), C10_ctx (the context of every handler, unary or streaming, is done by then) and C10_no_leak (Q: once the "
-          "handlers have returned the writer, all workers and all handler goroutines are dead) in coq/Props/C10.v, over all label "
+          "handlers have returned the writer, all workers and all handler goroutines are dead), C10_measure / C10_terminates ((T): a weight every internal rule strictly decreases: no live-lock, quiescence is reached) in coq/Props/C10.v, over all label "
           "sequences of the small-step model coq/Model/Server.v (any traffic, any handler behaviour, trigger at any point, any "
           "interleaving); the model is run lock-step against the real goat.Server.Serve on every run.",
     props="Props/C10.v",
-    theorems=["C10_returns", "C10_write_failure_cancels", "C10_returns_readfail", "C10_streams_done", "C10_ctx", "C10_no_leak"],
+    theorems=["C10_returns", "C10_write_failure_cancels", "C10_returns_readfail", "C10_streams_done", "C10_ctx", "C10_no_leak", "C10_measure", "C10_terminates"],
     imports=["Model.Client", "Model.Server", "Check.ServerC", "Check.C10c"],
     case_type="c10case",
     find_bad_from="find_bad_from",
